@@ -61,7 +61,7 @@ static Src make_source(Ctx &c, const gen::ZParams &qb, const gen::ZFile &B) {
 }
 
 static void mode_copy(Ctx &c) {
-    gen::ZFileOpts o; o.max_chunks = 10; o.max_chunk = 600; o.allow_empty = false;
+    gen::ZFileOpts o; o.max_chunks = 10; o.max_chunk = 600; o.allow_empty = false; o.big_rate = 8;
     gen::ZParams qb = gen::zparams(c, o); gen::ZFile B = gen::zfile_build(c, qb); size_t n = B.nchunks();
     Bytes T = B.file; std::string pat;
     for (size_t i = 0; i < n; i++) { size_t off = B.off(i), cl = B.clen(i); if (!cl) { pat += "+"; continue; } uint64_t k = c.draw(3); if (k == 0) { pat += "+"; continue; } pat += "0"; if (k == 1) std::fill(T.begin() + off, T.begin() + off + cl, 0); else for (size_t j = 0; j < cl; j++) T[off + j] ^= (uint8_t)(0x3c + j); }
@@ -101,9 +101,15 @@ static void mode_copy(Ctx &c) {
         // bytes outside the extents of chunks whose state changed
         if (fsig.empty()) {
             std::vector<bool> may(std::max(ta.size(), tb.size()), false);
-            for (size_t i = 0; i < n; i++) if (after[i] != before[i] || (before[i] != 1 && after[i] == -1)) for (size_t p = B.off(i); p < B.off(i) + B.clen(i) && p < may.size(); p++) may[p] = true;
+            // "chunks being filled": target chunks that were not valid and for which this source's index has an entry with equal
+            // checksum and sizes - the copy is attempted there, and an attempt that fails half-way (source cut short inside a chunk
+            // larger than one 32 KiB copy block) may leave the chunk still missing with part of its extent written
+            for (size_t i = 0; i < n; i++) {
+                bool attempted = false; if (before[i] != 1) for (auto &e : S.h.entries) if (e.digest == B.h.entries[i].digest && e.comp_len == B.h.entries[i].comp_len && e.len == B.h.entries[i].len) attempted = true;
+                if (after[i] != before[i] || (before[i] != 1 && after[i] == -1) || attempted) for (size_t p = B.off(i); p < B.off(i) + B.clen(i) && p < may.size(); p++) may[p] = true;
+            }
             size_t lim = std::min(ta.size(), tb.size());
-            for (size_t p = 0; p < lim; p++) if (ta[p] != tb[p] && !may[p]) { fsig = "not-confined"; fmsg = tag + ": target byte " + std::to_string(p) + " changed although it lies outside every chunk whose state changed (header: " + std::to_string(B.h.total_size) + " bytes)"; break; }
+            for (size_t p = 0; p < lim; p++) if (ta[p] != tb[p] && !may[p]) { fsig = "not-confined"; fmsg = tag + ": target byte " + std::to_string(p) + " changed although it lies outside every chunk that was being filled (header: " + std::to_string(B.h.total_size) + " bytes)"; break; }
             for (size_t p = lim; p < ta.size() && fsig.empty(); p++) if (!may[p] && ta[p] != 0) { fsig = "not-confined"; fmsg = tag + ": byte " + std::to_string(p) + " beyond the old end of the target was written outside any changed chunk"; }
         }
         zck_reset_failed_chunks(tgt);
